@@ -32,6 +32,7 @@ def main():
     demo = os.path.join(src, 'demo.cpp')
     meta = {'id': sid, 'property': pid, 'ran': []}
     head = sh('git -C /repo rev-parse HEAD')[1].strip()
+    meta['validated_at_repo_commit'] = head[:10]
     sh(f'git -C {VAL} checkout -q -- . && git -C {VAL} checkout -q --detach {head}')
     rc, out = sh(f'nice cmake --build {VAL}/_build -j8'); assert rc == 0, out[-2000:]
     rc, out = build_demo(demo, '/var/tmp/mutval-demo0'); assert rc == 0, 'demo does not compile on the clean tree: ' + out[-2000:]
